@@ -42,7 +42,8 @@ LastWith(cs, name, i) ==      \* greatest position in 2..i whose candle carries 
   ELSE LastWith(cs, name, i - 1)
 FindCalcIndex(cs, name) ==
   IF Len(cs) = 0 \/ ~(KVHas(cs[1].ind, name) \/ KVHas(cs[1].sub, name)) THEN 1
-  ELSE LET k == LastWith(cs, name, Len(cs)) IN IF k = 0 THEN 1 ELSE k + 1
+  \* (only the first candle carries it: resume after it)
+  ELSE LET k == LastWith(cs, name, Len(cs)) IN IF k = 0 THEN 2 ELSE k + 1
 
 \* one pass over the series of an indicator at position i: every series that is due is given
 \* its layer value computed from what is stored so far.  st = [cs, work]
